@@ -27,7 +27,7 @@ ASSUMPTIONS = ["tolerance(iii) = 10 x (measured max coefficient error) x sqrt(nn
                "instances where force balance does not determine the tensions up to scale (nullity != 1) give no verdict",
                "with k=0 resampling is taken with replace_short_edges=False (contracting border edges moves the far end of inferred interfaces)",
                "a two-point interface of a Moebius image is a chord, not an arc: k=0 is only combined with straight tissues"]
-REQUIRED_TAGS = {"all": ["verdict", "resampled", "solver:lsq", "solver:lsq_linear", "fit:taubinSVD", "straight", "curved", "path:inv", "path:nnls-fallback", "subtissue_verdict"]}
+REQUIRED_TAGS = {"all": ["verdict", "resampled", "solver:lsq", "solver:lsq_linear", "fit:taubinSVD", "straight", "curved", "path:inv", "path:nnls-fallback", "subtissue_verdict", "major_arc"]}
 
 
 def judge(at, cm, r, method, fit, viol, known, tags):
@@ -288,11 +288,90 @@ class SubTissues:
         return [], []
 
 
+def polyline_turning(pts):
+    tot = 0.0
+    for a, b, c in zip(pts[:-2], pts[1:-1], pts[2:]):
+        tot += cmath.phase((c - b) / (b - a))
+    return abs(tot) * (len(pts) - 1) / (len(pts) - 2)
+
+
+class MajorArcs:
+    """Moebius images with the pole just outside the tissue next to a peripheral junction whose kept sector is narrow: the internal
+    interface ending there becomes an arc of MORE than half a circle (strongly curved end of the quantifier)."""
+    chunk = 2
+    bound = 1
+
+    def __init__(self, base, junction, k):
+        self.name = "major-arcs:%s" % base
+        self.base, self.junction, self.k = base, junction, k
+        at = bases.get(base)
+        J = {j: T.zc(p) for j, p in at["J"].items()}
+        internal = set(T.internal_interfaces(at))
+        inc = [(ii, it) for ii, it in enumerate(at["I"]) if junction in (it["a"], it["b"])]
+        self.inner = [ii for ii, it in inc if ii in internal][0]
+        itn = at["I"][self.inner]
+        o = itn["b"] if itn["a"] == junction else itn["a"]
+        ai = cmath.phase(J[o] - J[junction])
+        best = None
+        for ii, it in inc:
+            if ii in internal:
+                continue
+            ob = it["b"] if it["a"] == junction else it["a"]
+            dd = (cmath.phase(J[ob] - J[junction]) - ai + math.pi) % (2 * math.pi) - math.pi
+            if best is None or abs(dd) < abs(best):
+                best = dd
+        self.poles = []
+        for d in (0.04, 0.08, 0.12):
+            th = abs(best) + 0.08
+            self.poles.append(J[junction] + d * cmath.exp(1j * (ai + math.copysign(th, best))))
+
+    def cmap(self, d):
+        pole = self.poles[d["pole"]]
+        return T.CMap([["mob", [0, 0], [1, 0], [1, 0], [-pole.real, -pole.imag]], T.aff(0.5 * cmath.exp(1j * d["rot"]), 0)])
+
+    def initial(self):
+        at = bases.get(self.base)
+        out = []
+        for pi in range(len(self.poles)):
+            for m in range(64):
+                d = {"pole": pi, "rot": round(0.1 * m, 3), "fit": "taubinSVD", "solver": None, "rs": None}
+                if predicted_f1(at, self.k, self.cmap(d)) == 0:
+                    out.append(d)
+                    break
+        return out
+
+    def actions(self, d):
+        if d["fit"] == "taubinSVD" and d["solver"] is None and d["rs"] is None:
+            return [["fit", "dlite"], ["solver", "lsq"], ["solver", "lsq_linear"], ["rs", [12, True]], ["rs", [8, False]]]
+        return []
+
+    def step(self, d, a):
+        return dict(d, **{a[0]: a[1]})
+
+    def evaluate(self, d):
+        at = bases.get(self.base)
+        cm = self.cmap(d)
+        jpos, ipts = T.geometry(at, self.k, cm)
+        tt = polyline_turning(ipts[self.inner])
+        r = SC.solve_static(at, k=self.k, cmap=cm, fit=d["fit"], method=d["solver"], allow_negatives=False, resample=d["rs"])
+        viol, known, tags = [], [], []
+        if tt > math.pi:
+            tags.append("major_arc")
+        verdict = judge(at, cm, r, d["solver"], d["fit"], viol, known, tags)
+        return {"viol": viol, "known": known, "tags": sorted(set(tags)), "cls": "%d/%.1f/%s/%s/%s/%.0f" % (d["pole"], d["rot"], d["fit"], d["solver"], d["rs"], math.degrees(tt)),
+                "nontrivial": verdict, "outdom": not verdict}
+
+    def check_edge(self, d, a, d2, r, r2):
+        return [], []
+
+
 def build(tier, seed):
     if tier == "quick":
         return [Geometry(["v5x5", "v6x5"], 2, 8, seed),
                 Geometry(["v6x6p%d" % (seed + 1)], 1, 8, seed),
-                SubTissues("v5x5", [(["m", 0.05, 0.02], 3, None, "dlite"), (["id"], 0, None, "dlite")])]
+                SubTissues("v5x5", [(["m", 0.05, 0.02], 3, None, "dlite"), (["id"], 0, None, "dlite")]),
+                MajorArcs("raw5x5j30p0", "16", 16)]
     return [Geometry(["v5x5"], 3, 12, seed),
             Geometry(["v6x5", "v6x6", "v7x6p%d" % (seed + 1)], 2, 24, seed),
-            SubTissues("v6x5", [(["m", 0.05, 0.02], 3, None, "dlite"), (["id"], 0, None, "dlite"), (["mc", 0.12, 0.05], 5, "lsq", "taubinSVD")])]
+            SubTissues("v6x5", [(["m", 0.05, 0.02], 3, None, "dlite"), (["id"], 0, None, "dlite"), (["mc", 0.12, 0.05], 5, "lsq", "taubinSVD")]),
+            MajorArcs("raw5x5j30p0", "16", 16), MajorArcs("raw5x5j30p0", "16", 12)]
